@@ -5,6 +5,9 @@ from concurrent.futures import ThreadPoolExecutor
 ROOT = os.path.dirname(os.path.dirname(os.path.abspath(__file__)))
 COQ = os.path.join(ROOT, "coq")
 HARNESS = os.path.join(ROOT, "harness")
+# The registered checks always build against /repo.  VERIF_REPO lets the seeded-change runner
+# point the same machinery at a scratch worktree without touching /repo.
+REPO = os.environ.get("VERIF_REPO", "/repo")
 WORKROOT = os.path.join(ROOT, ".work")
 EVID = os.path.join(ROOT, "evidence")
 REPLAYS = os.path.join(ROOT, "replays")
@@ -35,14 +38,28 @@ def sh(cmd, cwd=None, env=None, timeout=None):
 
 
 # ------------------------------------------------------------------------------------------ builds
+def harness_dir():
+    if REPO == "/repo":
+        return HARNESS
+    alt = os.path.join(WORKROOT, "alt_harness")
+    os.makedirs(os.path.join(alt, ".cargo"), exist_ok=True)
+    sh(["rsync", "-a", "--delete", os.path.join(HARNESS, "src") + "/", os.path.join(alt, "src") + "/"])
+    toml = open(os.path.join(HARNESS, "Cargo.toml")).read().replace("/repo/", REPO.rstrip("/") + "/")
+    if not os.path.exists(os.path.join(alt, "Cargo.toml")) or open(os.path.join(alt, "Cargo.toml")).read() != toml:
+        open(os.path.join(alt, "Cargo.toml"), "w").write(toml)
+    shutil.copy(os.path.join(HARNESS, "Cargo.lock"), os.path.join(alt, "Cargo.lock"))
+    shutil.copy(os.path.join(HARNESS, ".cargo", "config.toml"), os.path.join(alt, ".cargo", "config.toml"))
+    return alt
+
+
 def build_harness(release=False):
     cmd = ["cargo", "build", "--offline"] + (["--release"] if release else [])
-    rc, out, dt = sh(cmd, cwd=HARNESS, env={"RUSTFLAGS": f"--cfg {GUARD}"}, timeout=3000)
+    rc, out, dt = sh(cmd, cwd=harness_dir(), env={"RUSTFLAGS": f"--cfg {GUARD}"}, timeout=3000)
     return rc == 0, out, dt
 
 
 def harness_bin(release=False):
-    return os.path.join(HARNESS, "target", "release" if release else "debug", "ccverif")
+    return os.path.join(harness_dir(), "target", "release" if release else "debug", "ccverif")
 
 
 def ensure_makefile():
@@ -441,8 +458,9 @@ def run_property(prop, tier, seed, replay=None):
         "wall_s": round(time.time() - t0, 2),
         "violations": nviol,
     }
-    with open(os.path.join(EVID, f"{prop}.json"), "w") as w:
-        json.dump(ev, w, indent=1)
+    if not os.environ.get("VERIF_NO_EVIDENCE"):      # seeded-change runs must not overwrite evidence
+        with open(os.path.join(EVID, f"{prop}.json"), "w") as w:
+            json.dump(ev, w, indent=1)
     for l in sorted(set(known_lines)):
         print(l)
     for l in violation_lines:
